@@ -8,23 +8,36 @@ import (
 	"verif/harness/suites/contract"
 	"verif/harness/suites/dct"
 	"verif/harness/suites/dwt"
+	"verif/harness/suites/framing"
 	"verif/harness/suites/ht"
 	"verif/harness/suites/j2kblocks"
 	"verif/harness/suites/j2ke2e"
+	"verif/harness/suites/jpegll"
+	"verif/harness/suites/jpegls"
+	"verif/harness/suites/mq"
+	"verif/harness/suites/parsers"
 	"verif/harness/suites/q97"
+	"verif/harness/suites/rle"
 	t1s "verif/harness/suites/t1"
 	"verif/harness/vhlib"
 )
 
 func main() {
+	parsers.MaybeChild() // re-executed as a decode worker by the C08/C09 suites
 	s := vhlib.Suites{}
-	j2kblocks.Register(s)
-	dwt.Register(s)
-	dct.Register(s)
-	contract.Register(s)
-	ht.Register(s)
-	q97.Register(s)
-	t1s.Register(s)
-	j2ke2e.Register(s)
+	rle.Register(s)       // C01
+	jpegll.Register(s)    // C02 C13
+	jpegls.Register(s)    // C03 C07 C14
+	j2ke2e.Register(s)    // C04 C05 C06 C12 C19 (end-to-end oracles)
+	parsers.Register(s)   // C08 C09
+	contract.Register(s)  // C10 C18
+	dct.Register(s)       // C11 C15
+	q97.Register(s)       // C12
+	ht.Register(s)        // C06
+	framing.Register(s)   // C16 C17
+	j2kblocks.Register(s) // C20 (RCT)
+	dwt.Register(s)       // C20 (5/3 DWT)
+	mq.Register(s)        // C20 C16 C08 (MQ coder)
+	t1s.Register(s)       // C20 (EBCOT T1)
 	vhlib.Main(s)
 }
